@@ -226,6 +226,8 @@ static void exec_c11(const void *k, res_t *r, const runcfg_t *cfg) {
     cls = c11_class(c);
     ename = e->sink == SK_BUF ? "buffer" : "stream";
     fits = e->sink != SK_BUF || (size_t)FX.ref_len < FX.dmax;
+    /* a long double prints up to 4933 digits: a buffer that holds it can exceed RSIZE_MAX_STR, and such a dmax is itself a violation */
+    if (e->sink == SK_BUF && FX.dmax > (e->wide ? RSIZE_MAX_WSTR : RSIZE_MAX_STR)) { res_label(r, "dmax-above-RSIZE_MAX"); return; }
     r->nontrivial = ndir > 0 && fits;
     res_label(r, nfloat ? "has-float" : "exact-class");
     res_label(r, fits ? "fits" : "does-not-fit");
